@@ -98,6 +98,13 @@ class DataDirectory(StorageFrontend):
         exists = os.path.exists(dirname)
         bk = self.backend_key(dirname)
 
+        if exists and not self._has_metadata(dirname):
+            # A folder without any metadata file is what a crash (or I/O error) leaves behind
+            # while older broken data is being removed: there is no data in it
+            if write:
+                return bk
+            exists = False
+
         if write:
             if exists and not self._can_overwrite(key):
                 raise strax.DataExistsError(at=dirname)
@@ -130,6 +137,16 @@ class DataDirectory(StorageFrontend):
                     return self.backend_key(fn)
 
         raise strax.DataNotAvailable
+
+    @staticmethod
+    def _has_metadata(dirname):
+        """Return if the data folder dirname (or its _temp sibling) contains a metadata file."""
+        prefix = dirname_to_prefix(dirname)
+        for d in (dirname, dirname + "_temp"):
+            for fn in (RUN_METADATA_PATTERN % prefix, "metadata.json"):
+                if osp.exists(osp.join(d, fn)):
+                    return True
+        return False
 
     def _subfolders(self):
         """Loop over subfolders of self.path that match our folder format."""
